@@ -26,6 +26,9 @@ THEOREMS = [
     # the parent-count line of EvolutionStrategyEmitter.tell, regenerated from the source
     "Pyribs.GenFProofs.es_num_parents_matches",
     "Pyribs.GenFProofs.num_parents_rules",
+    "Pyribs.GenFProofs.es_check_restart_matches",
+    "Pyribs.GenFProofs.check_restart_unknown_raises",
+    "Pyribs.GenFProofs.check_restart_every",
     "Pyribs.C10.parents_spec",
     "Pyribs.C10.parents_filter",
     "Pyribs.C10.parents_mu",
